@@ -49,7 +49,10 @@ const (
 	c20ACS2 = "https://sp2.example.com/saml/acs"
 )
 
-func c20NewEnv() *c20Env {
+func c20NewEnv() *c20Env { return c20NewEnvWith(nil) }
+
+// c20NewEnvWith prepares the server state; wrap (optional) is put between the server and its store.
+func c20NewEnvWith(wrap func(samlidp.Store) samlidp.Store) *c20Env {
 	c20HashOnce.Do(func() { c20Hash, _ = bcrypt.GenerateFromPassword([]byte("pw1"), bcrypt.MinCost) })
 	e := &c20Env{store: &samlidp.MemoryStore{}}
 	must := func(err error) {
@@ -70,7 +73,11 @@ func c20NewEnv() *c20Env {
 	must(e.store.Put("/sessions/"+sid, saml.Session{ID: sid, CreateTime: time.Now().UTC(), ExpireTime: time.Now().UTC().Add(time.Hour),
 		Index: "idx1", NameID: "alice@example.com", UserName: "alice", UserEmail: "alice@example.com"}))
 	e.cookie = "session=" + sid
-	srv, err := newIdpSrv(e.store)
+	var st samlidp.Store = e.store
+	if wrap != nil {
+		st = wrap(st)
+	}
+	srv, err := newIdpSrv(st)
 	must(err)
 	e.srv = srv
 	return e
